@@ -19,16 +19,20 @@ RULE = ("case = one configuration given by its defining data (centres, radii, tw
         "defining points >= 1.5 apart; constructed tangencies / border points / near-parallel lines at arbitrary positions and rotations "
         "swept through the tolerance band (offsets 0, 1e-13 ... 0.1 on both sides); crossing circles with radius ratio up to 1e4 close "
         "to inner/outer tangency (offsets also scaled by d/s, the amplification of defect F9); a small out-of-domain stream (S = any). "
-        "Spec side: exact rational arithmetic on the bit patterns: kind required when the configuration is >= 1e-8 (10 x the 1e-9 "
-        "tolerance) from a boundary between kinds or exactly tangent / exactly on the border, `any` inside the band; every returned "
-        "point within 1e-7 of both primitives (harness: f64 against the defining data; driver: exactly over the rationals). "
-        "Raw comparison: kind + coordinates bit for bit against the Float instance of the Lean model. "
+        "Concentric / nearly concentric circles (d = 0 exactly, radius differences 0 ... 10 EPS incl. one ulp either side; tiny d). "
+        "Spec side: exact rational arithmetic on the bit patterns: kind required when the configuration is >= 1.01e-9 (the property's "
+        "1e-9 tolerance + 1%) from a boundary between kinds or exactly tangent / exactly on the border, `any` inside the band; every "
+        "returned point within 1e-7 of both primitives, decided EXACTLY on each side's own coordinates (harness: dyadic big-integer "
+        "arithmetic on the implementation's points against the defining data; driver: rationals on the model's points); the points "
+        "reported through into_iter() must equal the destructured ones (count, order, bits). "
+        "Raw comparison: kind + coordinates rounded to the grid 2^-30 against the Float instance of the Lean model; bit-for-bit "
+        "equality is measured on a sample and logged (coverage.bit_exact_sample), not alarmed. "
         "non-trivial = distinct in-domain case line (spec answer not `any`)")
 ASSUMPTIONS = [
     "the Lean model of rlib_geometry is hand-written over an abstract arithmetic record; it is tied to the code by running its Float "
-    "instance and the crate on the same configurations and comparing kinds and coordinates bit for bit",
+    "instance and the crate on the same configurations and comparing kinds and coordinates (grid 2^-30; bit equality logged)",
     "Lean Float and Rust f64 perform the same IEEE-754 binary64 + - * / sqrt abs and comparisons on this machine (x.powi(2) compiles to x*x)",
-    "util::EPS is extracted from util.rs on every run and handed to the model; the theorems hold for every eps > 0; the property's own "
+    "util::EPS is extracted from util.rs on every run and handed to the model; the theorems hold for every eps > 0 (spec soundness: 0 < eps < 1.01e-9); the property's own "
     "tolerance (1e-9) and the extracted value must agree (side condition)",
     "domain of the property: coordinates up to 1e3 in absolute value, radii in [0.1, 1e3], points defining a line at least 1 apart "
     "(Line::new: normal length in [1e-3, 1.4e3], line within 1.4e3 of the origin), circle centres identical or at least 0.1 apart",
@@ -45,13 +49,14 @@ MANIFEST = {
              "branch exactly on both circles; intersect_ll: returned point on both lines, parallel <=> |cp| < eps; Circle::position "
              "<=> sign of (|p-c|-r)/r against eps. The executable exact-rational specification the driver prints as `S` is proved sound "
              "against the real model (specKind*_sound, specPosition_sound, specContains_sound, nearCircle_iff, nearLine_iff). The same "
-             "model, instantiated with Float, is compared bit for bit with the crate on every check."),
+             "model, instantiated with Float, is compared with the crate on every check (kinds, coordinates on a 2^-30 grid; exact point check on the crate's own points). "
+             "cc_points_on_both needs no distinct-centres hypothesis: concentric circles get Same/None (cc_concentric_no_point)."),
     "note": ("PARTIAL: proved in exact real arithmetic only. The 1e-7 bound under IEEE rounding and the behaviour inside the EPS band are "
              "TESTED, not proved (differential run: lattice configurations decided exactly in integer arithmetic, real-valued "
              "configurations decided exactly over the rationals from the f64 bit patterns, constructed tangencies swept through the band). "
              "Trusted: Lean kernel, axioms propext/Classical.choice/Quot.sound, the hand-written model (tied to the code on generated cases "
              "only), IEEE arithmetic, harness and driver plumbing."),
-    "technique": "Lean 4 proof (Mathlib reals) of a hand-written arithmetic-polymorphic model + bit-exact differential correspondence of its Float instance against the Rust crate",
+    "technique": "Lean 4 proof (Mathlib reals) of a hand-written arithmetic-polymorphic model + differential correspondence of its Float instance against the Rust crate with exact-arithmetic point oracles on both sides",
     "design_ref": "DESIGN.md §6 C10",
 }
 
@@ -98,4 +103,30 @@ def extract(repo):
 def harness_args(params, profile):
     if "eps_bits" in params:
         return ["--eps", params["eps_bits"]]
+    return []
+
+
+def extra(ctx):
+    """Diagnostic only (logged, never a verdict): how many results of a sample are BIT-identical between the Float
+    instance of the model and the crate.  The verdict path compares coordinates on the grid 2^-30; the point predicate is
+    evaluated exactly on each side's own coordinates."""
+    import subprocess
+    cov = ctx["coverage"]
+    if not ctx["pipes"]:
+        return []
+    pipe = ctx["pipes"][0]
+    try:
+        g = subprocess.run([pipe.bin, "gen", "--seed", str(ctx["seed"] + 101), "--tier", "quick"] + pipe.extra_args,
+                           stdout=subprocess.PIPE, stderr=subprocess.DEVNULL, text=True, timeout=600)
+        lines = [l for k, l in enumerate(g.stdout.split("\n")) if l.strip() and k % 4 == 0]
+        res = pipe.eval_cases(["bits " + l for l in lines], "bits")
+        n = len(res)
+        same = sum(1 for r in res if r["impl"] is not None and r["model"] is not None and r["impl"][0] == r["model"][0])
+        cov["bit_exact_sample"] = {"lines": n, "raw_bit_identical": same}
+        if same != n:
+            cov["bit_exact_sample"]["first_differences"] = [
+                {"case": r["case"][:300], "impl": r["impl_line"][:200], "model": r["model_line"][:200]}
+                for r in res if not (r["impl"] is not None and r["model"] is not None and r["impl"][0] == r["model"][0])][:5]
+    except Exception as e:  # diagnostic must never decide anything
+        cov["bit_exact_sample"] = {"error": str(e)[:300]}
     return []
